@@ -20,7 +20,7 @@ def profs(spec, mult):
 PROFILES = {
     "C01": [("pressure", 12), ("fill", 10), ("mix", 6), ("ttl", 4), ("lg-updrace", 20), ("lg-pressure", 4)],
     "C02": [("reads", 12), ("mix", 8), ("burst", 6), ("lg-reads", 4)],
-    "C03": [("seq", 24), ("ttl", 8), ("lg-seq", 4)],
+    "C03": [("seq", 24), ("ttl", 8), ("lg-seq", 4), ("mix", 6), ("pressure", 5)],
     "C04": [("burst", 12), ("mix", 8), ("ttl", 5), ("lg-burst", 4)],
     "C05": [("burst", 15), ("mix", 8), ("pressure", 5), ("lg-updrace", 10), ("lg-burst", 4)],
     "C06": [("pressure", 18), ("fill", 12), ("mix", 4), ("lg-pressure", 4)],
@@ -46,6 +46,11 @@ for p in PROFILES:
                 "every step of it is one conformance check and one evaluation of the property's judge",
     }
 PLANS["C13"]["hang_is_violation"] = True
+PLANS["C13"]["locks"] = True            # lock events of the shutdown runs -> Locks.tla: no wait cycle may involve the shutdown sequence
+PLANS["C13"]["locks_about"] = "C_Shut"
+# free-running rounds in which shutdown() is called in the middle of the traffic: it must return, and every caller with it
+PLANS["C13"]["stress"] = {"quick": [{"rounds": 200, "threads": 4, "ops": 6000, "timeout_ms": 8000, "args": "--shutdown-mid"}],
+                          "thorough": [{"rounds": 3000, "threads": 6, "ops": 6000, "timeout_ms": 15000, "args": "--shutdown-mid"}]}
 PLANS["C15"]["hang_is_violation"] = True
 
 # ---- C12: the acknowledgement at the grain of its shared-memory accesses (Ack.tla)
@@ -123,6 +128,13 @@ for p in ["C02", "C03", "C04", "C07", "C08"]:
     d["quick"] = d["quick"] + [HIST_Q]
     d["thorough"] = d["thorough"] + [HIST_T]
     PLANS[p]["assumptions"] = PLANS[p]["assumptions"] + ["free-running histories on private keys (no scheduler) are judged call by call against the sequential meaning of the calls (TraceHist.tla); what they exercise depends on the machine's scheduling"]
+HOT_Q = {"name": "hist-hot", "cmd": "hist --mode hot --seed {seed} --rounds 30 --readers 5 --ops 1500", "trace_spec": "TraceHist"}
+HOT_T = {"name": "hist-hot", "cmd": "hist --mode hot --seed {seed} --rounds 400 --readers 6 --ops 3000", "trace_spec": "TraceHist"}
+for p in ["C06", "C14"]:
+    d = PLANS[p].setdefault("direct", {"quick": [], "thorough": []})
+    d["quick"] = d["quick"] + [HOT_Q]
+    d["thorough"] = d["thorough"] + [HOT_T]
+    PLANS[p]["assumptions"] = PLANS[p]["assumptions"] + ["free-running 'hot key' rounds (no scheduler): a continuously read resident against never-read newcomers, each put judged by TraceHist.tla when the newcomer's own estimate (read through the cache's estimate function before and after the put) is 0 and the resident's was at least 4: a newcomer whose sketch positions coincide with the resident's shares its estimate, which is allowed over-counting"]
 for p in ["C07"]:
     PLANS[p]["direct"]["quick"] = PLANS[p]["direct"]["quick"] + [STRESS_MIX_Q]
     PLANS[p]["direct"]["thorough"] = PLANS[p]["direct"]["thorough"] + [STRESS_MIX_T]
